@@ -166,6 +166,8 @@ def check_seg(ctx, spec, seg, tag):
     if kind == 'A':
         from vp.ref import arc_ref
         L = arc_ref.lam(spec[1], spec[2][0], spec[2][1], spec[3], spec[6])
+        if not (1e-12 < L < 1e12):
+            ctx.discard('arc chord/radius ratio extreme (C04 KF01 territory)')
         degenerate = L > 1 or abs(1.0 / L - 1.0) < 1e-6
         ecc = max(abs(seg.radius.real), abs(seg.radius.imag)) / min(abs(seg.radius.real), abs(seg.radius.imag))
         tol = (2e-4 if degenerate else 1e-7) * size * max(1.0, ecc ** 0.5) + 1024 * EPS * pos
